@@ -323,6 +323,7 @@ def run(tier):
     rule_R5(res, prog)
     rule_R3(res, prog)
     rule_R6(res, prog)
+    rule_R7(res, prog)
     return res.finish()
 
 
@@ -628,3 +629,54 @@ def rule_R6(res, prog):
                          file=fn.relfile, line=ln)
         res.instance(rid, "%s:%s cursor advance (%d path states)" % (fn.name, ln, ent["n"]), ent["ok"], finding=f_)
     res.floor(rid, 4)
+
+
+def rule_R7(res, prog):
+    """Truncated / malformed signatures are refused without reading outside the supplied buffer: in the signature
+    verification functions every DER primitive that takes (cursor address, size) is handed exactly the bytes that remain
+    in the signature buffer - `end - c` for the same cursor c - and not a length taken from the signature's own encoding
+    (which an attacker chooses)."""
+    import re
+    from sa.pp import pp
+    rid = "C11.R7"
+    res.rule(rid, "signature parsers pass `end - cursor` (the bytes really remaining) as the size of every DER primitive call")
+    prims = {}
+    for fn in prog.functions.values():
+        for j, p_ in enumerate(fn.params[:-1]):
+            t = (p_.get("t") or "").replace(" ", "")
+            t2 = fn.params[j + 1].get("t") or ""
+            if t.endswith("char**") and "*" not in t2 and any(k in t2 for k in ("int", "short", "long", "psSize", "size_t", "uint")):
+                prims[fn.name] = (j, j + 1)
+                break
+    n = 0
+    for fn in sorted(prog.functions.values(), key=lambda f: f.qname):
+        if not fn.blocks or not fn.relfile.startswith("crypto/") or not re.search(r"erify|DecryptSignedElement|EccDsa", fn.name):
+            continue
+        for b, ln, c in fn.calls():
+            if c.get("fn") not in prims:
+                continue
+            j, k = prims[c["fn"]]
+            a = c.get("a", [])
+            if len(a) <= k:
+                continue
+            pa = strip(a[j])
+            if pa is None or pa.get("k") != "un" or pa["op"] != "&":
+                continue
+            cv = strip(pa["e"])
+            if cv is None or cv.get("k") != "var":
+                continue
+            n += 1
+            sz = strip(a[k])
+            while sz is not None and sz.get("k") == "cast":
+                sz = strip(sz["e"])
+            ok = sz is not None and sz.get("k") == "bin" and sz["op"] == "-" and (strip(sz["r"]) or {}).get("id") == cv.get("id") and \
+                (strip(sz["l"]) or {}).get("k") == "var"
+            f_ = None
+            if not ok:
+                f_ = Finding(PROP, rid, fn.name, "DER primitive bounded by `%s`" % pp(a[k])[:30],
+                             "%s:%s %s(): %s(&%s, %s, ..): the size is not `end - %s`; a length decoded from the signature itself can "
+                             "exceed what is left of the buffer, so a truncated signature makes the primitive read past its end (and the "
+                             "verdict depend on adjacent memory)" % (fn.relfile, ln, fn.name, c["fn"], cv["n"], pp(a[k])[:40], cv["n"]),
+                             file=fn.relfile, line=ln)
+            res.instance(rid, "%s:%s %s(&%s, %s)" % (fn.name, ln, c["fn"], cv["n"], pp(a[k])[:40]), ok, finding=f_)
+    res.floor(rid, 3)
